@@ -100,6 +100,19 @@ def oracle_encode(ctx: Ctx, tlv, items, enc: bytes):
         return
     back = impl_decode(tlv, enc)
     merged = [[t, hx(v)] for t, v in ref.merge_dict(items).items()]
+    if len(items) <= 3:  # the base64 wrappers used by camera.py go through the same encoder
+        import base64
+
+        args = []
+        for t, v in items:
+            args += [bytes([t]), v]
+        b64 = tlv.encode(*args, to_base64=True)
+        if base64.b64decode(b64) != want or {k[0]: v for k, v in tlv.decode(b64, from_base64=True).items()} != ref.merge_dict(items):
+            ctx.fail(
+                "C07:base64-path-differs",
+                f"encode(to_base64)/decode(from_base64) differ from the plain codec for value lengths {lens}",
+                {"kind": "encode", "items": [[t, hx(v)] for t, v in items]},
+            )
     if back != {"ok": merged}:
         ctx.fail(
             "C07:roundtrip-mismatch",
